@@ -424,8 +424,50 @@ func ruleF3c(c *Ctx) *RuleResult {
 					}
 				}
 			}
+			// a piece of the raw query: a substring, or an element of what strings.Split & co. return
+			raw := false
+			var walk func(x ssa.Value, d int)
+			walk = func(x ssa.Value, d int) {
+				if x == nil || d > 6 || raw {
+					return
+				}
+				switch y := canon(x).(type) {
+				case *ssa.Slice:
+					if b, isB := y.X.Type().Underlying().(*types.Basic); isB && b.Info()&types.IsString != 0 {
+						raw = true
+						return
+					}
+					walk(y.X, d+1)
+				case *ssa.UnOp:
+					if ia, isIA := y.X.(*ssa.IndexAddr); isIA {
+						walk(ia.X, d+1)
+					}
+				case *ssa.Extract:
+					walk(y.Tuple, d+1)
+				case *ssa.Next:
+					if rg, isRg := y.Iter.(*ssa.Range); isRg {
+						walk(rg.X, d+1)
+					}
+				case *ssa.Phi:
+					for _, e := range y.Edges {
+						walk(e, d+1)
+					}
+				case *ssa.Call:
+					if g := y.Call.StaticCallee(); g != nil && g.Pkg != nil && g.Pkg.Pkg.Path() == "strings" {
+						switch g.Name() {
+						case "Split", "SplitN", "SplitAfter", "Cut", "Fields", "FieldsFunc", "TrimPrefix", "TrimLeft":
+							raw = true
+						}
+					}
+				}
+			}
+			if !okSrc {
+				walk(call.Call.Args[0], 0)
+			}
 			if okSrc {
 				r.ok(key, c.Pos(call.Pos()), FuncName(fn), what, "tested on a key of url.Values (decoded)")
+			} else if !raw {
+				r.undecided("F3c: the string tested for the `_HLS_` prefix in %s (%s) is neither a key of url.Values nor recognisably a piece of the raw query: form not known to the rule", FuncName(fn), c.Pos(call.Pos()))
 			} else {
 				r.fail(key, c.Pos(call.Pos()), FuncName(fn), what, "the prefix is tested on "+describeVal(v)+", not on a decoded key of url.Values: `%5FHLS_msn=…` is honoured by the handler (URL.Query decodes it) and copied into every URI of the answer")
 			}
